@@ -84,8 +84,8 @@ type MuxScenario struct {
 	// greeting are both there when it reads the acknowledgement)
 	AcceptorFirst bool `json:"acceptor_first,omitempty"`
 	BulkLen       int  `json:"bulk_len"`
-	BulkDelay     int `json:"bulk_delay"`
-	BulkReadDelay int `json:"bulk_read_delay"`
+	BulkDelay     int  `json:"bulk_delay"`
+	BulkReadDelay int  `json:"bulk_read_delay"`
 }
 
 var muxGates = []string{
